@@ -38,17 +38,17 @@ Proved here:
 * `typecheck_sound_partial` — progress/preservation for `Model/LangLower` on the fragment
   `FragProg`: every construct of the C22 language (incl. struct literals with `...source`,
   `substruct`, `as`, foreign calls under `FfiContract`); a `match` needs a default arm, `None` +
-  `Some(x)`, `Ok(x)` + `Err(y)`, or — patterns `true`/`false`/enum variants, no default — the
-  compiler's exhaustiveness check, which is proved sound for that case (`total_flat`); global
-  `let`s without struct literals.  A call of a
+  `Some(x)`, `Ok(x)` + `Err(y)`, or — no default, no binding, patterns nested from `true`/`false`/
+  enum variants/`None`/`Some`/`Ok`/`Err` — the compiler's exhaustiveness check, which is proved
+  sound for that case (`count_sound`, `total_sh`); global `let`s included.  A call of a
   declared function of an accepted program with well-typed arguments is never stuck, and what it
   returns fits the declared return type (`Proofs/TypeSound.lean: snd_all`, by induction on the
   evaluator's fuel).
 * `no_machine_type_error_frag` — for accepted programs of that fragment, with no assumption on
   the evaluator: the compiled program exists and every terminating call ends, at every large
   enough step budget, in a normal or policy exit — never in a machine type error.
-  Outside the fragment (a `match` exhaustive only by counting patterns other than bool / enum
-  literals; struct literals in global `let`s)
+  Outside the fragment (a `match` without default arm with struct-literal or `Unit` patterns, or
+  mixing bindings and literals beyond `None`+`Some(x)` / `Ok(x)`+`Err(y)`)
   `typecheck_sound` is covered by the tie only: every program the REAL compiler accepts is run on
   the real VM and the `MachineErrorType` is classified, and the reference evaluator must not be
   stuck.
@@ -229,12 +229,16 @@ and without `...source` fields, field access, `substruct`, `as` casts, global `l
 function calls (under the contract `FfiContract`), `match` expressions and statements with
 literal, alternative and binding patterns — with two restrictions: (i) that some arm of a `match`
 is selected must follow from a trailing default arm, from `None` + `Some(x)` arms, from `Ok(x)` +
-`Err(y)` arms (`patsTotal`), or — for a match without default arm whose patterns are `true` /
-`false` or enum variants (`patsFlat`) — from the compiler's own exhaustiveness check (`scanPats`:
-pairwise distinct patterns, `missingDefault`: at least as many patterns as the scrutinee type has
-values; `Proofs/TypeSound.lean: total_flat`); other matches whose exhaustiveness rests on counting
-(`option[bool]` with `None`/`Some(true)`/`Some(false)`, struct-of-bool patterns, literal `Ok`/`Err`
-patterns) are outside; (ii) global `let`s contain no struct literal.
+`Err(y)` arms (`patsTotal`), or — for a match without default arm and without bindings whose
+patterns are built from `true` / `false`, enum variants, `None`, `Some(..)`, `Ok(..)`, `Err(..)`
+(`patsSh`) — from the compiler's own exhaustiveness check, which is proved sound for these
+(`scanPats`: pairwise distinct patterns; `missingDefault`: `Ok`/`Err` literal counts, `None` +
+`Some` literal count, or total count against the cardinality of the scrutinee type;
+`Proofs/TypeCount.lean: count_sound`, `TypeSound.lean: total_sh`).  Outside: a match without
+default arm that has struct-literal patterns (struct of bools) or a `Unit` pattern, and one that
+mixes binding and literal patterns other than `None`+`Some(x)` / `Ok(x)`+`Err(y)`.
+Global `let`s (literal forms, struct literals checked against the definition — the check added
+to `expression_value`) are covered.
 
 Value typing is `Fit p v t`: `Value::fits_type` (`Val.fitsType`) plus, for every struct value
 inside `v`, conformance to its definition (every declared field present with a fitting value)
@@ -377,6 +381,20 @@ def exSP4 : SProgram :=
                  .ret (.substruct (.cast (.var 28) 34) 33)] }] }
 example : FragProg exSP4 := ⟨by decide, by decide, by decide, by decide⟩
 example : (lowerProgram [] (fun _ _ _ => .bad) exSP4).isSome = true := by decide
+
+/-- `function n(o option[bool]) int { return match o { Some(true) => 1, None => 2, Some(false) => 3 } }`:
+    exhaustive by counting nested literal shapes (`patsSh`, `total_sh`) -/
+def exSP5 : SProgram :=
+  { uses := [], enums := [], structs := [], globals := [],
+    funs := [
+      { name := 17, params := [(22, .optional .bool)], ret := .int,
+        body := [.ret (.mtch (.var 22) [(.values [.some (.bool true)], .int 1), (.values [.none], .int 2),
+                                         (.values [.some (.bool false)], .int 3)])] }] }
+example : FragProg exSP5 := ⟨by decide, by decide, by decide, by decide⟩
+example : (lowerProgram [] (fun _ _ _ => .bad) exSP5).isSome = true := by
+  simp [exSP5, lowerProgram, topoOrder, findDup, builtinSigs, builtinNames, builtinRet, List.range, List.range.loop, lowerFun,
+    typeDefined, scopeAdd, lowerStmts, lowerStmt, lowerExpr, scopeGet, patsOfE, scanPats, scanVals, patEq, isVar, bindingOf,
+    defaultOk, lowerArmsE, lowerPat, lowerPatValsE, isLiteral, unify, Ty.matchesT, Ty.fits, missingDefault, cardinality]
 
 /-! ### non-vacuity: `exProg2` of Props/C22 (a function with `let`, `if`, `return` and a builtin
 call) satisfies the hypotheses of `no_machine_type_error_partial`; see the examples there. -/
